@@ -38,6 +38,9 @@ RULE = (
     'enumerates every registered endpoint x 4 methods x cert x clients x 11 '
     'hooks; non-trivial: the endpoint is a command. Distinct = SHA-1 of the '
     'case JSON.'
+    ' Static part also replaces public files by links to a secret between re'
+    'quests and repeats the earlier requests; endpoints part also loads the'
+    ' client list from real PEM files (valid / expired / mixed). '
 )
 ASSUMPTIONS = [
     'the request URI reaches _static undecoded (twisted passes request.uri '
